@@ -4,6 +4,7 @@ import (
 	"encoding/json"
 	"fmt"
 	"runtime"
+	"sort"
 	"strconv"
 	"strings"
 	"sync"
@@ -203,17 +204,24 @@ func (p *c05) Run(w *lib.Worker, idx int, r *lib.Rand) lib.Case {
 		case "op":
 			return cl.op.Run(true).Key()
 		case "shared":
-			return sut.Guard(func() sut.Outcome {
+			// the outcome of a validator object includes what it recorded for post-processing (defaults, pruning):
+			// the schemata per object member, per item and for the root
+			var digest string
+			o := sut.Guard(func() sut.Outcome {
 				v, _ := sut.Value(cl.inst)
-				return sut.FromResult(sharedSchemas[cl.which].Validate(v))
-			}).Key()
+				res := sharedSchemas[cl.which].Validate(v)
+				digest = schemataDigest(res)
+				return sut.FromResult(res)
+			})
+			return o.Key() + "|schemata=" + digest
 		case "shared-schema":
 			return sut.Guard(func() sut.Outcome {
 				v, _ := sut.Value(cl.inst)
 				if cl.oneShot {
 					return sut.FromError(validate.AgainstSchema(sharedObjs[cl.which], v, strfmt.Default))
 				}
-				return sut.FromResult(validate.NewSchemaValidator(sharedObjs[cl.which], nil, "", strfmt.Default, validate.WithRecycleValidators(true)).Validate(v))
+				res := validate.NewSchemaValidator(sharedObjs[cl.which], nil, "", strfmt.Default, validate.WithRecycleValidators(true)).Validate(v)
+				return sut.FromResult(res)
 			}).Key()
 		case "shared-simple":
 			return sut.Guard(func() sut.Outcome {
@@ -346,6 +354,23 @@ func (p *c05) Run(w *lib.Worker, idx int, r *lib.Rand) lib.Case {
 	return c
 }
 
+// schemataDigest renders what a result recorded for post-processing: the number of schemata for the root object,
+// per (member name) and per (item index), sorted.
+func schemataDigest(res *validate.Result) string {
+	if res == nil {
+		return "nil"
+	}
+	var parts []string
+	for k, v := range res.FieldSchemata() {
+		parts = append(parts, fmt.Sprintf("f:%s:%d", k.Field(), len(v)))
+	}
+	for k, v := range res.ItemSchemata() {
+		parts = append(parts, fmt.Sprintf("i:%d:%d", k.Index(), len(v)))
+	}
+	sort.Strings(parts)
+	return fmt.Sprintf("root:%d,%s", len(res.RootObjectSchemata()), strings.Join(parts, ","))
+}
+
 func renderCall(cl *c05Call) any {
 	switch cl.kind {
 	case "op":
@@ -377,6 +402,9 @@ func (p *c05) Finish(a *lib.Aggregate) (broken []string) {
 // positions, so that every per-call scratch value of the object validators is exercised by all goroutines at once.
 const c05DirectedShared = `{"type":"object","required":["id","tags"],
  "properties":{"id":{"type":"string","default":"none"},"tags":{"type":"array","default":[],"items":{"type":"object","required":["k","v"],"properties":{"k":{"type":"string","default":"key"},"v":{"type":"integer","default":0,"maximum":10}}}},
+   "shape":{"oneOf":[{"type":"object","required":["w"],"properties":{"w":{"type":"integer","default":1},"tag":{"type":"string"}}},
+      {"type":"object","required":["r"],"properties":{"r":{"type":"array","items":{"type":"object","properties":{"q":{"type":"array","items":{"type":"integer"}}}}}}},
+      {"type":"object","required":["z1","z2"],"properties":{"z1":{"type":"array","items":{"type":"string","pattern":"^[a-z]+$"}},"z2":{"type":"object","additionalProperties":{"type":"integer"}}}}]},
    "meta":{"allOf":[{"type":"object","required":["a"],"properties":{"a":{"type":"integer","default":1}}},{"type":"object","required":["b"],"properties":{"b":{"type":"string","default":"bee","minLength":2}}}]}},
  "patternProperties":{"^x-":{"type":"object","required":["on"],"properties":{"on":{"type":"boolean","default":true}}}},
  "additionalProperties":{"type":"object","required":["z"],"properties":{"z":{"type":"number","default":1.5}}}}`
@@ -384,5 +412,7 @@ const c05DirectedShared = `{"type":"object","required":["id","tags"],
 var c05DirectedInstances = []string{
 	`{}`, `{"id":"i1"}`, `{"tags":[{}]}`, `{"tags":[{"k":"a"},{"v":3},{"k":"b","v":11}]}`, `{"id":"i","tags":[{"v":12}]}`,
 	`{"meta":{}}`, `{"meta":{"a":2}}`, `{"meta":{"b":"x"}}`, `{"x-a":{}}`, `{"x-a":{"on":false},"x-b":{}}`, `{"other":{}}`, `{"other":{"z":"no"}}`,
+	`{"shape":{"w":3,"tag":"t","z1":["a","b","c","d","e","f","g","h"],"z2":{"a":1,"b":2,"c":3,"d":4}}}`, `{"shape":{"tag":"t"}}`, `{"id":"s","shape":{"w":1}}`,
+	`{"shape":{"r":[{"q":[1,2,3]},{"q":[4,5,6]},{"q":[]}],"w":2}}`, `{"shape":{"r":[{"q":[1]}]},"tags":[{"k":"a"}]}`,
 	`{"id":5}`, `{"tags":[{"k":1}]}`, `[]`, `{"meta":{"a":"s","b":"ok"},"other":{},"x-q":{"on":1}}`,
 }
